@@ -474,3 +474,51 @@ func ruleTSTotal(c *Ctx) {
 		}
 	}
 }
+
+// ---------- CD-PURE
+
+// ruleCDPure: what a codec's Read, Skip, Write, Omit and New do depends on their receiver, the buffer and the
+// destination — not on what an earlier call, or another goroutine, left in a package-level variable. The
+// only package state a codec method may reach is what is filled at initialisation and only read afterwards,
+// and the maps that the guarded-by table puts under a lock (the zone cache). A "last value" cache, an
+// atomically published anchor, a pooled scratch object make the value decoded depend on history.
+func ruleCDPure(c *Ctx) {
+	c.Rule("CD-PURE", "no codec method (Read, Skip, Write, Omit, New), nor anything it calls in the module, touches package-level state other than tables fixed at initialisation and the locked caches: what is decoded or written does not depend on earlier calls", 27)
+	P := c.P
+	bt := getBT(P)
+	for _, ct := range bt.Codecs {
+		key := ct.Name + "/methods-pure"
+		bad := ""
+		n := 0
+		seenF := map[*ssa.Function]bool{}
+		var scan func(f *ssa.Function, d int)
+		scan = func(f *ssa.Function, d int) {
+			if f == nil || seenF[f] || f.Blocks == nil || d > 4 {
+				return
+			}
+			seenF[f] = true
+			n++
+			for _, blk := range f.Blocks {
+				for _, in := range blk.Instrs {
+					if g := mutableStateOperand(P, in); g != nil && bad == "" {
+						bad = fmt.Sprintf("%s uses the package-level %s at %s", fnKey(f), globalKey(g), P.pos(in.Pos()))
+					}
+				}
+			}
+			for _, cs := range callsIn(f) {
+				if cs.Static != nil && P.isModuleFunc(cs.Static) {
+					scan(cs.Static, d+1)
+				}
+			}
+		}
+		for _, m := range codecMethodNames {
+			if ct.Declared[m] {
+				scan(ct.M[m], 0)
+			}
+		}
+		if n == 0 {
+			continue
+		}
+		c.Check(bad == "", key, P.pos(ct.M["Read"].Pos()), fmt.Sprintf("%d functions reachable from the codec's methods: no package-level state besides initialisation-time tables and locked caches", n), bad+": the result of this call depends on what earlier calls (or other goroutines) left there")
+	}
+}
